@@ -97,7 +97,7 @@ Lemma raw_flags c :
   (c_uhash c = tN -> explicit_flag c GHash = c_hash c) /\
   (c_ma c = Some false -> explicit_flag c GMatch = tF).
 Proof.
-  destruct c as [a ad sl fr ini rp st cmp eq ord h uh gs ma own inh]; cbn.
+  destruct c as [a ad sl fr ini rp st cmp eq ord h uh gs ma own inh bk]; cbn.
   repeat match goal with |- _ /\ _ => split end; try reflexivity.
   - intros ->; reflexivity.
   - intros H; destruct cmp; try (split; reflexivity); congruence.
@@ -166,10 +166,10 @@ Qed.
 (** Methods defined by a base class never influence any decision. *)
 Definition with_inh (c : cfg) (inh : dset) : cfg :=
   C (c_api c) (c_ad c) (c_slots c) (c_frozen c) (c_init c) (c_repr c) (c_str c) (c_cmp c)
-    (c_eq c) (c_order c) (c_hash c) (c_uhash c) (c_gs c) (c_ma c) (c_own c) inh.
+    (c_eq c) (c_order c) (c_hash c) (c_uhash c) (c_gs c) (c_ma c) (c_own c) inh (c_base c).
 
 Theorem inherited_methods_irrelevant_l : forall c inh, decide (with_inh c inh) = decide c.
-Proof. intros [a ad sl fr ini rp st cmp eq ord h uh gs ma own inh0] inh. reflexivity. Qed.
+Proof. intros [a ad sl fr ini rp st cmp eq ord h uh gs ma own inh0 bk] inh. reflexivity. Qed.
 
 (** Defaults. *)
 Theorem defaults_l : forall c,
@@ -178,17 +178,20 @@ Theorem defaults_l : forall c,
   (c_api c = Define -> c_cmp c = tN -> c_order c = None -> explicit_flag c GOrder = tF) /\
   (c_api c = Define -> c_cmp c = tN -> c_order c = Some tN ->
      explicit_flag c GOrder = explicit_flag c GEq) /\
-  documented_default c GPickle = slots c /\
+  documented_default c GPickle =
+    (slots c || (base_generated_pair (c_base c) && negb (class_defines c Dg))) /\
+  (c_base c = BPlain -> documented_default c GPickle = slots c) /\
   (c_str c = None -> str_arg c = false) /\
   (c_ad c = None -> auto_detect c = match c_api c with AttrS => false | Define => true end) /\
   (c_slots c = None -> slots c = match c_api c with AttrS => false | Define => true end) /\
   (c_ma c = None -> match_args c = true).
 Proof.
-  intros [a ad sl fr ini rp st cmp eq ord h uh gs ma own inh]; cbn.
+  intros [a ad sl fr ini rp st cmp eq ord h uh gs ma own inh bk]; cbn.
   repeat match goal with |- _ /\ _ => split end; try reflexivity.
   - intros -> -> [-> | ->]; reflexivity.
   - intros -> -> ->; reflexivity.
   - intros -> -> ->; reflexivity.
+  - intros ->. cbn. rewrite orb_false_r. reflexivity.
   - intros ->; destruct a; reflexivity.
   - intros ->; destruct a; reflexivity.
   - intros ->; destruct a; reflexivity.
@@ -205,16 +208,99 @@ Qed.
 
 Theorem pickling_follows_slots_l : forall c, no_error c -> c_gs c = tN ->
   auto_detect c && existsb (body_defines c) [Dg; Dst] = false ->
-  if slots c then group_generated c GPickle else group_untouched c GPickle.
+  if slots c || (base_generated_pair (c_base c) && negb (body_defines c Dg))
+  then group_generated c GPickle else group_untouched c GPickle.
 Proof.
   intros c Hn Hf H.
-  assert (generate c GPickle = slots c) as Hg.
+  assert (generate c GPickle = slots c || (base_generated_pair (c_base c) && negb (body_defines c Dg))) as Hg.
   { unfold generate, explicit_flag, detects, documented_default. rewrite Hf.
     replace (existsb (class_defines c) (members GPickle)) with (existsb (body_defines c) [Dg; Dst])
       by (cbn; unfold class_defines; rewrite ?orb_false_r; reflexivity).
-    rewrite H. reflexivity. }
-  destruct (slots c); [apply generate_true | apply generate_false]; auto; discriminate.
+    rewrite H. unfold class_defines. rewrite orb_false_r. reflexivity. }
+  destruct (slots c || _); [apply generate_true | apply generate_false]; auto; discriminate.
 Qed.
+
+Definition no_own_ : dset := DS false false false false false false false false false false false false false false false.
+
+(** The base class.  Replacing the base by another one changes nothing, except that an
+    inherited attrs-GENERATED pickling pair raises the default of the pickling group —
+    never against an explicit flag, never against an auto-detected own method, and never
+    for any other name. *)
+Definition with_base (c : cfg) (b : basek) : cfg :=
+  C (c_api c) (c_ad c) (c_slots c) (c_frozen c) (c_init c) (c_repr c) (c_str c) (c_cmp c)
+    (c_eq c) (c_order c) (c_hash c) (c_uhash c) (c_gs c) (c_ma c) (c_own c) (c_inh c) b.
+
+Theorem base_kind_irrelevant_l : forall c b,
+  base_generated_pair b = base_generated_pair (c_base c) -> decide (with_base c b) = decide c.
+Proof.
+  intros [a ad sl fr ini rp st cmp eq ord h uh gs ma own inh bk] b H.
+  set (c1 := C a ad sl fr ini rp st cmp eq ord h uh gs ma own inh b).
+  set (c0 := C a ad sl fr ini rp st cmp eq ord h uh gs ma own inh bk).
+  change (with_base c0 b) with c1. change (c_base c0) with bk in H.
+  assert (forall g, generate c1 g = generate c0 g) as G.
+  { intros g. unfold generate, documented_default.
+    change (c_base c1) with b. change (c_base c0) with bk. rewrite H. reflexivity. }
+  rewrite !decision_table_l. unfold spec.
+  assert (spec_error c1 = spec_error c0) as -> by (unfold spec_error; rewrite (G GRepr); reflexivity).
+  destruct (spec_error c0); [reflexivity|].
+  f_equal. apply map_ext. intros d. unfold spec_found, spec_written, spec_hash. rewrite !G. reflexivity.
+Qed.
+
+Theorem generated_base_pair_only_default_l : forall c b, no_error c ->
+  (forall d, d <> Dg -> d <> Dst -> prov_at (decide (with_base c b)) d = prov_at (decide c) d) /\
+  (c_gs c <> tN \/ auto_detect c && existsb (body_defines c) [Dg; Dst] = true ->
+     decide (with_base c b) = decide c).
+Proof.
+  intros [a ad sl fr ini rp st cmp eq ord h uh gs ma own inh bk] b Hn.
+  set (c1 := C a ad sl fr ini rp st cmp eq ord h uh gs ma own inh b).
+  set (c0 := C a ad sl fr ini rp st cmp eq ord h uh gs ma own inh bk).
+  assert (forall g, g <> GPickle -> generate c1 g = generate c0 g) as G.
+  { intros g Hg. unfold generate, documented_default. destruct g; try congruence; reflexivity. }
+  assert (spec_error c1 = spec_error c0) as E.
+  { unfold spec_error. rewrite (G GRepr) by discriminate. reflexivity. }
+  assert (no_error c1) as Hn1 by (unfold no_error; rewrite E; exact Hn).
+  split.
+  - intros d H1 H2. change (with_base c0 b) with c1.
+    rewrite (prov_at_decide c1 d Hn1), (prov_at_decide c0 d Hn). f_equal.
+    unfold spec_found, spec_written, spec_hash.
+    rewrite !(G GInit), !(G GRepr), !(G GEq), !(G GOrder), !(G GMatch) by discriminate.
+    destruct d; try congruence; reflexivity.
+  - intros H. change (with_base c0 b) with c1. rewrite !decision_table_l. unfold spec. rewrite E.
+    destruct (spec_error c0); [reflexivity|]. f_equal. apply map_ext. intros d.
+    assert (generate c1 GPickle = generate c0 GPickle) as GP.
+    { unfold generate, explicit_flag, detects. cbn [c_gs c1 c0].
+      destruct gs; try reflexivity. destruct H as [H|H]; [congruence|].
+      replace (existsb (class_defines c1) (members GPickle)) with (existsb (body_defines c0) [Dg; Dst])
+        by (cbn; unfold class_defines; rewrite ?orb_false_r; reflexivity).
+      replace (existsb (class_defines c0) (members GPickle)) with (existsb (body_defines c0) [Dg; Dst])
+        by (cbn; unfold class_defines; rewrite ?orb_false_r; reflexivity).
+      change (auto_detect c1) with (auto_detect c0).
+      apply andb_true_iff in H as [-> ->]. reflexivity. }
+    unfold spec_found, spec_written, spec_hash.
+    rewrite !(G GInit), !(G GRepr), !(G GEq), !(G GOrder), !(G GMatch), ?GP by discriminate.
+    reflexivity.
+Qed.
+
+(** The rule itself: below a base with a generated pair, without flag and without an
+    auto-detected own method, the class gets its own pair unless the body shadows
+    [__getstate__] (and the class is not slotted). *)
+Example ex_inherited_pair_regenerated :
+  let c := C AttrS None (Some false) false tN tN None tN tN None tN tN tN None no_own_ no_own_ (BAttrs true true true) in
+  no_error c /\ prov_at (decide c) Dg = Some pG /\ prov_at (decide c) Dst = Some pG /\
+  prov_at (decide (with_base c BPlain)) Dg = Some pA.
+Proof. repeat split; reflexivity. Qed.
+
+Example ex_inherited_pair_flag_false_wins :
+  let c := C AttrS None (Some false) false tN tN None tN tN None tN tN tF None no_own_ no_own_ (BAttrs true true true) in
+  no_error c /\ prov_at (decide c) Dg = Some pA /\ prov_at (decide c) Dst = Some pA.
+Proof. repeat split; reflexivity. Qed.
+
+Example ex_inherited_pair_own_setstate_wins :
+  let c := C Define None (Some false) false tN tN None tN tN None tN tN tN None
+             (DS false false false false false false false false false false false true false false false)
+             no_own_ (BAttrs true true true) in
+  no_error c /\ prov_at (decide c) Dg = Some pA /\ prov_at (decide c) Dst = Some pU.
+Proof. repeat split; reflexivity. Qed.
 
 Theorem str_off_l : forall c, no_error c ->
   prov_at (decide c) Ds = Some (if str_arg c then pG else untouched c Ds).
@@ -301,7 +387,7 @@ Qed.
 
 Definition no_own : dset := DS false false false false false false false false false false false false false false false.
 Definition bare (a : api) (own : dset) : cfg :=
-  C a None None false tN tN None tN tN None tN tN tN None own no_own.
+  C a None None false tN tN None tN tN None tN tN tN None own no_own BPlain.
 
 (** [@define] on a body defining [__eq__] only: eq+ne skipped, the user's [__eq__] kept,
     Python's [__hash__ = None] kept, everything else generated, order off. *)
@@ -320,25 +406,25 @@ Proof. repeat split; reflexivity. Qed.
 (** explicit True replaces (flag obeyed), explicit False keeps. *)
 Example ex_flag_true_replaces :
   let c := C Define None None false tN tT None tN tN None tN tN tN None
-             (DS false true false false false false false false false false false false false false false) no_own in
+             (DS false true false false false false false false false false false false false false false) no_own BPlain in
   no_error c /\ explicit_flag c GRepr = tT /\ prov_at (decide c) Dr = Some pG.
 Proof. repeat split; reflexivity. Qed.
 
 Example ex_flag_false_keeps :
   let c := C AttrS None None false tF tN None tN tN None tN tN tN None
-             (DS true false false false false false false false false false false false false false false) no_own in
+             (DS true false false false false false false false false false false false false false false) no_own BPlain in
   no_error c /\ explicit_flag c GInit = tF /\ told c Di = false /\
   prov_at (decide c) Di = Some pU /\ prov_at (decide c) Da = Some pG.
 Proof. repeat split; reflexivity. Qed.
 
 (** the four definition-time rejections are reachable *)
 Example ex_errors :
-  decide (C Define None None false tN tN None tT tN None tN tN tN None no_own no_own) = RErr EType /\
-  decide (C AttrS None None false tN tN None tT tT None tN tN tN None no_own no_own) = RErr EValue /\
-  decide (C AttrS None None false tN tN None tN tF (Some tT) tN tN tN None no_own no_own) = RErr EValue /\
+  decide (C Define None None false tN tN None tT tN None tN tN tN None no_own no_own BPlain) = RErr EType /\
+  decide (C AttrS None None false tN tN None tT tT None tN tN tN None no_own no_own BPlain) = RErr EValue /\
+  decide (C AttrS None None false tN tN None tN tF (Some tT) tN tN tN None no_own no_own BPlain) = RErr EValue /\
   decide (C Define None None true tN tN None tN tN None tN tN tN None
-            (DS false false false false false false false false false false false false false true false) no_own) = RErr EValue /\
-  decide (C AttrS None None false tN tF (Some true) tN tN None tN tN tN None no_own no_own) = RErr EValue.
+            (DS false false false false false false false false false false false false false true false) no_own BPlain) = RErr EValue /\
+  decide (C AttrS None None false tN tF (Some true) tN tN None tN tN tN None no_own no_own BPlain) = RErr EValue.
 Proof. repeat split; reflexivity. Qed.
 
 (** Reading "defined in the class body" literally for [__hash__] is refuted by the
@@ -352,6 +438,6 @@ Theorem literal_body_reading_of_hash_refuted_l :
             prov_at (decide c) Dh = Some pZ.
 Proof.
   exists (C Define None (Some false) true tN tN None tN tT None tN tN tN None
-            (DS false false false true false false false false false false false false false false false) no_own).
+            (DS false false false true false false false false false false false false false false false) no_own BPlain).
   repeat split; reflexivity.
 Qed.
